@@ -8,7 +8,7 @@ import (
 
 func init() {
 	register(&Property{ID: "C06", Run: runC06,
-		Explain: "Recipient rules decided on the three routers for every router state and message: (R06.1) the protobuf placed in outgoing RPCs is the accepted msg.Message pointer itself, and (with R03.6, re-evaluated here) no code writes fields of an accepted pb.Message; (R06.2) every send/yield is — through the recipient sets it ranges over — behind the false edges of `peer == msg.ReceivedFrom` and `peer == author`; (R06.3) every recipient is a key of p.topics[topic], a mesh/fanout member, or dominated by a successful lookup in the topic map; (R06.4) the router is handed only non-local messages (single and batch path); (R06.5) mesh/fanout recipients are skipped exactly when they declared the message unwanted; (R06.6) inclusion as implication checks: a direct topic peer, a floodsub-only topic peer at/above the publish threshold, a flood-publish topic peer that is direct or at/above the threshold, and a mesh/fanout member that did not declare the message unwanted can only miss the recipient set on a path that refutes that condition, and a collected recipient is only skipped by the source/author/partial-message exclusions; (R06.7) fanout is used only when the topic is not joined, its lastpub stamp is refreshed on every use, it is re-drawn only when empty, expires only after FanoutTTL without publishing and loses members only when they left the topic or fell below the publish threshold. (R06.3 after the audit round) mesh/fanout members get no exemption: a member that never subscribed or unsubscribed without PRUNE is not a topic peer. (second wave) R06.7: the expiry arithmetic is in age form (the sum form overflows). NOT decided: that an outbound stream exists, random selection of randomsub beyond RandomSubD, the exact size of the fanout set.",
+		Explain: "Recipient rules decided on the three routers for every router state and message: (R06.1) the protobuf placed in outgoing RPCs is the accepted msg.Message pointer itself, and (with R03.6, re-evaluated here) no code writes fields of an accepted pb.Message; (R06.2) every send/yield is — through the recipient sets it ranges over — behind the false edges of `peer == msg.ReceivedFrom` and `peer == author`; (R06.3) every recipient is a key of p.topics[topic], a mesh/fanout member, or dominated by a successful lookup in the topic map; (R06.4) the router is handed only non-local messages (single and batch path); (R06.5) mesh/fanout recipients are skipped exactly when they declared the message unwanted; (R06.6) inclusion as implication checks: a direct topic peer, a floodsub-only topic peer at/above the publish threshold, a flood-publish topic peer that is direct or at/above the threshold, and a mesh/fanout member that did not declare the message unwanted can only miss the recipient set on a path that refutes that condition, and a collected recipient is only skipped by the source/author/partial-message exclusions; (R06.7) fanout is used only when the topic is not joined, its lastpub stamp is refreshed on every use, it is re-drawn only when empty, expires only after FanoutTTL without publishing and loses members only when they left the topic or fell below the publish threshold. (R06.3 after the audit round) mesh/fanout members get no exemption: a member that never subscribed or unsubscribed without PRUNE is not a topic peer. (second wave) R06.7: the expiry arithmetic is in age form (the sum form overflows). R06.6 also: the flood-publish arm is decided by msg.ReceivedFrom == own ID (who published), not by the author field. NOT decided: that an outbound stream exists, random selection of randomsub beyond RandomSubD, the exact size of the fanout set.",
 		Assume:  []string{"p.topics[topic] holds exactly the peers known to be in the topic (C05)", "gs.mesh/gs.fanout members are topic peers (C07)"},
 		Mutants: []Mutant{
 			{Name: "flood-publish-by-author", File: "gossipsub.go", Old: "\t\tif gs.floodPublish && from == gs.p.host.ID() {", New: "\t\tif gs.floodPublish && msg.GetFrom() == gs.p.host.ID() {", Expect: "R06.6"},
@@ -52,12 +52,16 @@ func (rc *recipientCheck) ok(f *Func, key ast.Expr, site ast.Node) (bool, string
 	// the ranged collection: a local variable (possibly sliced / converted with peerMapToList)
 	var collObj types.Object
 	id, isId := key.(*ast.Ident)
-	if !isId {
+	if ix, isIx := unparen(key).(*ast.IndexExpr); !isId && isIx && v.Kind == "rangeval" {
+		// xs[i] under `for i := range xs` (canonically the range value of xs)
+		collObj = baseLocal(f, ix.X)
+	} else if !isId {
 		return false, "recipient is not a range variable"
-	}
-	for _, d := range p.R(f).Defs(f.Info().Uses[id]) {
-		if d.rangeX != nil {
-			collObj = baseLocal(f, d.rangeX)
+	} else {
+		for _, d := range p.R(f).Defs(f.Info().Uses[id]) {
+			if d.rangeX != nil {
+				collObj = baseLocal(f, d.rangeX)
+			}
 		}
 	}
 	if collObj == nil {
